@@ -6,7 +6,7 @@
 use ag_harness::*;
 use alpenglow::consensus::{Blockstore, BlockstoreEvent, BlockstoreImpl};
 use alpenglow::crypto::signature::{PublicKey, SecretKey};
-use alpenglow::shredder::{RegularShredder, ShredValidationError, Shredder, SliceCommitment, ValidatedShred};
+use alpenglow::shredder::{RegularShredder, ShredIndex, ShredValidationError, Shredder, SliceCommitment, ValidatedShred};
 use alpenglow::types::{Slice, SliceIndex, Slot};
 use alpenglow::all2all::TrivialAll2All;
 use alpenglow::consensus::{Alpenglow, ConsensusMessage, EpochInfo, ValidatorEpochInfo};
@@ -306,7 +306,17 @@ impl Ctx {
         let sig_valid = w.sig == self.sets[g].wires[0].sig && pk == self.sets[g].key;
         let cache_is_own = cache.map(|c| self.sets[c].cbytes == self.sets[g].cbytes);
         match cache_is_own {
-            Some(true) => Verdict::Ok,
+            // the identical commitment is cached: the check of the signature may be skipped - for the very signature
+            // that was verified when the cache was seeded (`ValidatedShred::commitment()` of a shred of set `c`), not
+            // for other bytes in its place (D34); another valid signature of the key is verified in full
+            Some(true) => {
+                let verified = cache.is_some_and(|c| w.sig == self.sets[c].wires[0].sig);
+                if verified || sig_valid {
+                    Verdict::Ok
+                } else {
+                    Verdict::InvalidSignature
+                }
+            }
             Some(false) => {
                 if sig_valid {
                     Verdict::Equivocation
@@ -348,7 +358,9 @@ impl Ctx {
         self.rec.count(&format!("val:{out}"));
         self.class = fnv(self.class, out);
         let exp = self.expected(set, &w, cc, sc, cache, pk);
+        let genuine_but_sig = self.genuine_set(&w).is_some() && cache.is_some();
         let key = match (exp, got) {
+            (Verdict::InvalidSignature, Verdict::Ok) if genuine_but_sig => "unverified-signature-accepted-on-cache-hit",
             (Verdict::Ok, _) => "valid-shred-rejected",
             (_, Verdict::Ok) => "altered-or-unsigned-shred-accepted",
             (Verdict::Equivocation, _) => "conflicting-commitment-not-reported",
@@ -569,6 +581,17 @@ fn main() {
         // same slot/index signed by another key: not equivocation of leader 1
         cx.val(3, i, Some(0), 1, &[], &mut rng);
         cx.val(3, i, Some(0), 2, &[], &mut rng);
+        // D34: the slice's own commitment is cached and a relay replaced the signature bytes of a genuine shred - by
+        // garbage, by the leader's valid signature for another slice (set 2), by another key's signature (set 3): never
+        // accepted (the repair peers of this node would refuse the shred), never an equivocation; the untouched shred
+        // takes the shortcut under any key
+        let j = rng.below(64) as usize;
+        cx.val(0, j, Some(0), 1, &[Mut::SigJunk], &mut rng);
+        cx.val(0, j, Some(0), 2, &[Mut::SigJunk], &mut rng);
+        cx.val(0, j, Some(0), 1, &[Mut::SigOf(2, rng.below(64) as usize)], &mut rng);
+        cx.val(0, j, Some(0), 1, &[Mut::SigOf(3, rng.below(64) as usize)], &mut rng);
+        cx.val(0, j, Some(0), 2, &[Mut::SigOf(3, rng.below(64) as usize)], &mut rng);
+        cx.val(0, j, Some(0), 3, &[], &mut rng);
         // set 4: the same leader signs, for the same slot and slice index, a commitment to a tree of another shape
         // (other height: paths of 0..=5, 7 or 8 hashes; or 64 leaves again but other content); every second time over
         // the very shards of set 0. Each of its shreds is valid on its own and a conflicting commitment against 0 / 1.
@@ -584,6 +607,7 @@ fn main() {
         cx.val(x, j, Some(0), 2, &[], &mut rng); // not signed by key 2: no equivocation of that key
         cx.val(x, j, None, 2, &[], &mut rng);
         cx.val(x, j, Some(3), 1, &[], &mut rng);
+        cx.val(x, j, Some(x), 1, &[Mut::SigJunk], &mut rng);
         for _ in 0..4 {
             let j = rng.below(keep as u64) as usize;
             let mut muts: Vec<Mut> = Vec::new();
@@ -660,6 +684,9 @@ fn main() {
                 let out = cx.bs_add(s, i, rng.chance(3, 4), 1, &[], &mut rng);
                 flagged_in_honest |= !out.starts_with("pass flag 0");
             }
+            // a genuine shred of slice 1 whose signature a relay replaced, validated as the node does (cached commitment)
+            let junk = cx.bs_add(0, 41 + rng.below(20) as usize, true, 1, &[Mut::SigJunk], &mut rng);
+            cx.rec.oracle(junk == "rej InvalidSignature", "unverified-signature-accepted-on-cache-hit", || format!("gate case {c}: a shred of the cached slice 1 of slot {slot} carrying garbage instead of the leader's signature, validated with the blockstore's cached commitment, was answered `{junk}`"));
             let ops = feed.len();
             cx.rec.oracle(!flagged_in_honest, "honest-leader-flagged", || format!("gate case {c}: {ops} validated shreds of one consistent block (slot {slot}, {nslices} slices) made the blockstore reject a shred or flag the leader"));
         }
@@ -730,14 +757,48 @@ fn main() {
             for &i in idx.iter().take(32 + rng.below(20) as usize) { feed.push((j, i)); }
         }
         rng.shuffle(&mut feed);
+        // per slice one victim: the lowest-index shred of the feed that is not the first of its slice to arrive. Just
+        // before it arrives, a copy with garbage instead of the leader's signature arrives (D34): with the slice's
+        // commitment cached it must be refused; were it stored, `deshred` would copy its signature into every
+        // regenerated shred (it takes header and signature from the lowest index present)
+        let victims: Vec<(usize, usize)> = (0..nslices)
+            .filter_map(|j| {
+                let first = feed.iter().find(|e| e.0 == j).copied();
+                feed.iter().filter(|e| e.0 == j && Some(**e) != first).map(|e| e.1).min().map(|i| (j, i))
+            })
+            .collect();
         let mut flagged_in_honest = false;
         for &(sidx, i) in &feed {
+            if victims.contains(&(sidx, i)) {
+                let junk = cx.bs_add(sidx, i, true, 1, &[Mut::SigJunk], &mut rng);
+                cx.rec.oracle(junk == "rej InvalidSignature", "unverified-signature-accepted-on-cache-hit", || format!("gate-complete case {c}: shred {i} of slice {sidx} of slot {slot} carrying garbage instead of the leader's signature, validated with the blockstore's cached commitment of that slice, was answered `{junk}`"));
+            }
             let out = cx.bs_add(sidx, i, rng.chance(1, 2), 1, &[], &mut rng);
             flagged_in_honest |= !out.starts_with("pass flag 0");
         }
         cx.rec.oracle(!flagged_in_honest, "honest-leader-flagged", || format!("gate-complete case {c}: the shreds of one consistent complete block (slot {slot}, {nslices} slices) made the blockstore reject a shred or flag the leader"));
         let complete = { let (bs, _) = cx.bs.as_ref().expect("bs"); bs.disseminated_block_hash(Slot::new(slot)).is_some() };
         cx.rec.count(&format!("gate-complete:block-reconstructed={complete}"));
+        // every shred the node now serves (stored or regenerated) is one a repair peer accepts: `try_new(_, None, leader)`
+        if complete {
+            let (bs, _) = cx.bs.as_ref().expect("bs");
+            let hash = bs.disseminated_block_hash(Slot::new(slot)).expect("complete").clone();
+            let mut bad: Vec<(usize, usize)> = Vec::new();
+            let mut served = 0;
+            for j in 0..nslices {
+                let sl: SliceIndex = wincode::deserialize(&(j as u64).to_le_bytes()).expect("slice index");
+                for i in 0..64 {
+                    if let Some(sh) = bs.get_shred(&(Slot::new(slot), hash.clone()), sl, ShredIndex::new(i).expect("index")) {
+                        served += 1;
+                        if ValidatedShred::try_new(sh.as_shred().clone(), None, &cx.pks[1]).is_err() {
+                            bad.push((j, i));
+                        }
+                    }
+                }
+            }
+            cx.rec.count(&format!("gate-complete:all-shreds-served={}", served == 64 * nslices));
+            cx.rec.oracle(bad.is_empty(), "served-shred-does-not-validate", || format!("gate-complete case {c}: after slot {slot} ({nslices} slices) was reconstructed from shreds that all passed try_new, {} of the {served} shreds get_shred serves are refused by try_new(_, None, leader key), e.g. (slice, index) {:?}", bad.len(), &bad[..bad.len().min(6)]));
+        }
         // the conflicting slice, straight to the blockstore (no cached commitment handed to try_new)
         let ncs = cx.sets[conflict].wires.len() as u64;
         let o1 = cx.bs_add(conflict, rng.below(ncs) as usize, false, 1, &[], &mut rng);
